@@ -105,9 +105,9 @@ def run(ctx):
                                                           prefixes=("calc_distance", "dist_matrix", "upgma", "upgma_exact", "tree", "tree_exact")), "distances/upgma")
     # the binary32 guide tree the C12Soft theorems are about: SoftF32 distance matrix / UPGMA / tree against the real routines
     ty = os.path.join(C.CORPUS, "sliceY_treesoft.ops")
-    soft = C.gen_ops("gen_bpm.py", ctx.seed + 77, "--soft", "--trees", 10 if ctx.quick else 200, "--matrices", 15 if ctx.quick else 300)
+    soft = C.gen_ops("gen_bpm.py", ctx.seed + 77, "--soft", "--trees", 4 if ctx.quick else 200, "--matrices", 8 if ctx.quick else 300)
     if os.path.exists(ty):
-        soft += [l.strip() for l in open(ty) if l.strip() and not l.startswith("f32_lenterm")][:: (6 if ctx.quick else 1)]
+        soft += [l.strip() for l in open(ty) if l.strip() and not l.startswith("f32_lenterm")][:: (25 if ctx.quick else 1)]
     diffs += C.unit_correspondence(ctx, kvh, soft, "softtree")
     cases = []
     for i in range(90 if ctx.quick else 900):
